@@ -198,6 +198,17 @@ def run(ctx):  # noqa: C901, PLR0912, PLR0915
     ctx.ob('C13.R2', 'validation switched only by the parameter', okv,
            'read_received_message validates envelope and body unless validate=False is passed; default is True',
            fi=rd, witness=[g2.facts_at(n) for n, _ in vcalls])
+    # the whole document is validated - headers included (a MessageID that is no URI is echoed as RelatesTo of the answer, and
+    # an answer that fails its own validation kills the thread that sends it): some _validate_node call takes the parsed root
+    # itself and depends on nothing but `validate`
+    la_rd = local_assignments(rd.node)
+    roots_ = {k for k, vs in la_rd.items() if any(isinstance(v, ast.Call) and call_name(v) in ('fromstring', 'parse', 'XML') for v in vs)}
+    whole = [n for n, c in vcalls if c.args and isinstance(c.args[0], ast.Name) and c.args[0].id in roots_ and
+             all(txt == 'validate' for txt, _p in g2.facts_at(n).resolved)]
+    ctx.ob('C13.R2', 'the whole envelope is validated', bool(whole),
+           'read_received_message validates the parsed document root (envelope, headers and body)' if whole else
+           'read_received_message validates the document root only under further conditions / validates the body only: the '
+           'WS-Addressing headers of a received message are no longer schema-checked', fi=rd)
     vn = repo.func('sdc11073.pysoap.msgreader.validate_node')
     ctx.ob('C13.R2', 'validate_node raises', any(isinstance(n, ast.Raise) for n in walk_no_nested(vn.node)) and
            'assertValid' in xsrc(vn), 'validate_node turns a schema violation into ValidationError', fi=vn)
